@@ -114,9 +114,31 @@ def _shared(x, lo, hi):
         cache[k] = (x, s)  # the term is kept alive so that its id cannot be reused on this path
         return s
     s = ent[1]
+    if lo is not None and (s.lo is None or lo > s.lo):
+        s.lo = lo
+    if hi is not None and (s.hi is None or hi < s.hi):
+        s.hi = hi
     if s.lo is not None and s.lo == s.hi:
         return s.lo
     return s
+
+
+def note_bounds(t, lo, hi):
+    """remember tighter bounds for a derived element term (returns the term)"""
+    if _real_isinstance(t, _real_int):
+        return t
+    cache = E().sints
+    k = t.get_id()
+    ent = cache.get(k)
+    if ent is None:
+        cache[k] = (t, SInt(t, lo, hi))
+    else:
+        s = ent[1]
+        if s.lo is None or lo > s.lo:
+            s.lo = lo
+        if s.hi is None or hi < s.hi:
+            s.hi = hi
+    return t
 
 
 def elem(x):
@@ -174,10 +196,12 @@ def mk_bytes(items):
 
 
 def seq_eq(a, b):
-    """element-wise equality of two element lists -> bool / SBool"""
+    """element-wise equality of two element lists -> bool / SBool.  Comparisons against constants
+    go through the per-path shared SInt of the element, so intervals / exclusions answer most of
+    them without the solver and a branch on a single comparison refines the element."""
     if _real_len(a) != _real_len(b):
         return False
-    ts = []
+    conds = []
     for x, y in zip(a, b):
         if x is y:
             continue
@@ -186,10 +210,21 @@ def seq_eq(a, b):
             if x != y:
                 return False
             continue
-        ts.append(iterm(x) == iterm(y))
-    if not ts:
+        if xi:
+            x, y = y, x
+            yi = True
+        sx = _shared(x, None, None)
+        r = sx == (y if yi else _shared(y, None, None))
+        if r is False:
+            return False
+        if r is True:
+            continue
+        conds.append(r)
+    if not conds:
         return True
-    return mk_bool(z3.And(*ts) if len(ts) > 1 else ts[0])
+    if _real_len(conds) == 1:
+        return conds[0]
+    return sand(*conds)
 
 
 # ====================================================================== byte strings
